@@ -456,11 +456,11 @@ theorem mkJ_sem (cfg : Cfg) (hcfg : cfg.junctionKeepsNot = true) : ∀ (fuel : N
 /-! ### paths, negation -/
 
 theorem sem_leafQ (leaf : Leaf α) (o : Obj α) : sem ops f (leafQ leaf) o = leafHolds ops leaf o := by
-  cases leaf <;> cases o <;> simp [leafQ, sem, leafHolds]
+  cases leaf <;> cases o <;> simp [leafQ, sem, leafHolds, semAll]
 
 theorem leaf_inTables (leaf : Leaf α) (k : Obj α) (h : leafHolds ops leaf k = true) :
     k.inTables (contrib (leafQ leaf)) = true := by
-  cases leaf <;> cases k <;> simp_all [leafQ, contrib, Obj.inTables, leafHolds]
+  cases leaf <;> cases k <;> simp_all [leafQ, contrib, contribAll, Obj.inTables, leafHolds]
 
 /-- **Paths.** `Named(a, Named(b, … cond))` holds at `o` iff following `a.b.…` from `o` reaches an object on
 which the comparison holds. -/
